@@ -32,7 +32,7 @@ def prepare():
 
 
 def generate(seed, h, tier):
-    return pcheck.generate(seed, ID, h, tier, vertex_p=0.0, fault_p=0.1, buggify_p=0.1)
+    return pcheck.generate(seed, ID, h, tier, vertex_p=0.0, fault_p=0.2, buggify_p=0.1)
 
 
 def _nontrivial(t, spec, i):
